@@ -1,17 +1,20 @@
 import BSModel.Proofs.Text
+import BSModel.Proofs.TextHeap
+import BSModel.Props.C01
+import BSModel.Props.C03
 import BSModel.Gen.Text
 /-! # C13 — text extraction returns exactly the interesting strings, in document order
 
 Property theorems only. `allStringsImpl`, `getTextImpl`, `stringsImpl`, `strippedStringsImpl`, `textImpl`, `stringProp`,
 `interestingFor`, `stringContainer` mirror `bs4/element.py` and `bs4/__init__.py` statement by statement
 (`Model/Text.lean`); `textOf`/`textOfL` is the recursive evaluator, `joinSpec`/`List.intercalate` the meaning of
-`separator.join`, `SoleChain`/`Occurs` the relations the statement talks about. The tables (`mainContentStringTypes`,
-`htmlStringContainers`, `pyWhitespace`) are generated from the live objects on every run. -/
+`separator.join`, `SoleChain`/`Occurs` the relations the statement talks about. The tables (`c13MainContentStringTypes`,
+`c13HtmlStringContainers`, `pyWhitespace`) are generated from the live objects on every run. -/
 namespace BS.Props.C13
 open BS.Text
 
-abbrev main := BS.Gen.mainContentStringTypes
-abbrev containers := BS.Gen.htmlStringContainers
+abbrev main := BS.Gen.c13MainContentStringTypes
+abbrev containers := BS.Gen.c13HtmlStringContainers
 
 /-- the pieces after the class test: as they are, or each one trimmed and the empty ones dropped -/
 def pieces (strp : Bool) (l : List PStr) : List PStr :=
@@ -97,7 +100,7 @@ theorem spec_append (sel : StrClass → Bool) (a b : List Node) :
 
 /-- Table fact: `Tag.MAIN_CONTENT_STRING_TYPES` is exactly {NavigableString, CData}. -/
 theorem main_types_table (c : StrClass) : main.contains c = isMain c := by
-  cases c <;> simp [main, BS.Gen.mainContentStringTypes, isMain]
+  cases c <;> simp [main, BS.Gen.c13MainContentStringTypes, isMain]
 
 /-- Table fact: the default string containers of the HTML builders are script, style, template, rt, rp with their
     own classes, and no container class is a main content class. -/
@@ -105,7 +108,7 @@ theorem containers_table :
     containers.lookup (ofS "script") = some .script ∧ containers.lookup (ofS "style") = some .stylesheet ∧
     containers.lookup (ofS "template") = some .templateString ∧ containers.lookup (ofS "rt") = some .rubyTextString ∧
     containers.lookup (ofS "rp") = some .rubyParenthesisString ∧ containers.length = 5 ∧
-    (containers.all fun p => !main.contains p.2) = true ∧ BS.Gen.baseStringContainers = [] := by
+    (containers.all fun p => !main.contains p.2) = true ∧ BS.Gen.c13BaseStringContainers = [] := by
   decide +kernel
 
 /-- Ordinary element (its name is not a string container of the builder that made it), default arguments:
@@ -135,6 +138,11 @@ theorem default_types_none (strp : Bool) (nm : PStr) (kids : List Node) :
   rw [textOfL_congr _ isMain (fun c => by simp only [Types.keeps]; exact main_types_table c)]
 
 example : containers.lookup (ofS "div") = none := by decide
+example : containers.lookup (ofS "template") = some .templateString := by decide
+example : allStringsImpl main true .dflt (.tag (ofS "template") (interestingFor main containers (ofS "template"))
+    [.str .templateString (ofS " t "), .tag (ofS "b") (.many main) [.str .templateString (ofS "u"), .str .comment (ofS "c")]]) =
+    [ofS "t", ofS "u"] := by
+  rw [default_types_container true containers (ofS "template") .templateString _ (by decide)]; decide
 example : allStringsImpl main false .dflt (.tag (ofS "script") (interestingFor main containers (ofS "script"))
     [.str .script (ofS "s"), .str .comment (ofS "c"), .str .navigableString (ofS "n")]) = [ofS "s"] := by
   rw [allStrings_eq_spec]; decide
@@ -186,6 +194,18 @@ theorem only_special_yields_nothing (strp : Bool) (cont : List (PStr × StrClass
 example : allStringsImpl main false .dflt (.tag (ofS "div") (interestingFor main containers (ofS "div"))
     [.tag (ofS "script") (.many [.script]) [.str .script (ofS "s")], .str .comment (ofS "c"), .str .doctype (ofS "html")]) = [] := by
   rw [allStrings_eq_spec]; decide
+/-- the hypothesis of `only_special_yields_nothing` on a concrete nested forest -/
+example : ∀ c v, OccursL [.tag (ofS "script") (.many [.script]) [.str .script (ofS "s")], .str .comment (ofS "c")] c v →
+    c ≠ .navigableString ∧ c ≠ .cData := by
+  intro c v h
+  cases h with
+  | head h => cases h with
+    | inTag h => cases h with
+      | head h => cases h; decide
+      | tail h => cases h
+  | tail h => cases h with
+    | head h => cases h; decide
+    | tail h => cases h
 example : pruneL isMain [.str .comment (ofS "c"), .tag (ofS "p") .none [.str .script (ofS "s"), .str .cData (ofS "x")]]
     = [.tag (ofS "p") .none [.str .cData (ofS "x")]] := by
   simp [pruneL, prune, isMain]
@@ -308,12 +328,20 @@ theorem strip_drops_empties_str (mn : List StrClass) (types : TypesArg) (c : Str
 theorem strip_fixed_point (s : PStr) (hh : ∀ c, s.head? = some c → isSpace c = false)
     (hl : ∀ c, s.getLast? = some c → isSpace c = false) : strip s = s := strip_fixed s hh hl
 
+example : strip (ofS "a b") = ofS "a b" := strip_fixed_point _ (by decide) (by decide)
 example : strip (ofS " \t a b\n") = ofS "a b" := by decide
 example : strip [0x3000, 0xA0, 120, 0x200B, 0x2028] = [120, 0x200B] := by decide
 example : strippedStringsImpl main demo = [ofS "a", ofS "x", ofS "y"] := by
   rw [strippedStringsImpl, demo, allStrings_eq_spec]; decide
 example : ofS "a" ∈ allStringsImpl main true .dflt demo := by
   rw [demo, allStrings_eq_spec]; decide
+
+/-- Whole-table facts about the generated `isspace` table: strictly increasing (so duplicate-free), every entry a
+    code point, and below 128 exactly TAB, LF, VT, FF, CR, FS, GS, RS, US and SPACE. -/
+theorem whitespace_table :
+    BS.Gen.pyWhitespace.Pairwise (· < ·) ∧ (BS.Gen.pyWhitespace.all (· < 0x110000)) = true ∧
+    ((List.range 128).all fun c => isSpace c == [9, 10, 11, 12, 13, 28, 29, 30, 31, 32].contains c) = true := by
+  refine ⟨by decide +kernel, by decide +kernel, by decide +kernel⟩
 
 /-! ## 7. `.string` -/
 
@@ -394,5 +422,383 @@ example : stringContainer [] containers (some (ofS "script")) (some .comment) = 
     parsed string into a `Sub`, which the exact-class test then hides from ordinary elements -/
 example : stringContainer [(.navigableString, .other 0)] containers none none = .other 0 ∧
     textOf isMain (.str (.other 0) (ofS "x")) = [] := by decide
+
+/-! ## 9. on the pointer heap: parsed and edited trees
+
+`allStringsHeap`/`getTextHeap`/`stringPropHeap` (Model/TextHeap.lean) run `_all_strings`, `get_text` and `.string`
+on the pointer heap of Model/Heap.lean: over `Tag.descendants` — the `next_element` chase bounded by
+`_last_descendant()` — exactly as the Python does. C01 proves that parsing and every finite history of editing calls
+keep the heap consistent (`Good`); on a consistent heap the chase is the pre-order of the children lists
+(Proofs/HeapIter.lean). Hence nothing about the linkage is assumed any more: sections 1–7 hold for the tree
+`toNode h L h.cap x` read off the children lists. -/
+section heap
+open BS.Heap
+
+/-- On every consistent heap, for every receiver, labelling and argument: the pointer-chasing `_all_strings` never
+    fails and yields what the tree-level code-mirror yields on the tree read off `contents`. -/
+theorem heap_allStrings_eq_tree {h : Heap} (hg : Good h) (mn : List StrClass) (L : Labels) (strp : Bool)
+    (types : TypesArg) (x : Nat) :
+    allStringsHeap mn h L strp types x = .ok (allStringsImpl mn strp types (toNode h L h.cap x)) := by
+  obtain ⟨w, hwf⟩ := hg
+  exact allStringsHeap_eq_tree hwf mn L strp types x
+
+/-- … hence it is the recursive evaluator over the children's trees (element receiver). -/
+theorem heap_allStrings_eq_spec {h : Heap} (hg : Good h) (mn : List StrClass) (L : Labels) (strp : Bool)
+    (types : TypesArg) (x : Nat) (hx : (h.kind x).isTag = true) :
+    allStringsHeap mn h L strp types x =
+      .ok (pieces strp (textOfL (resolveTag mn (L.interesting x) types).keeps ((h.kids x).map (toNode h L h.cap)))) := by
+  rw [heap_allStrings_eq_tree hg]
+  obtain ⟨w, hwf⟩ := hg
+  rw [toNode_unfold hwf L x hx, allStrings_eq_spec]
+
+/-- Document order on the heap itself: the pieces are the values of the string nodes of the selected classes among
+    `docOrder h x` (C01's pre-order of the subtree) after `x`, in that order. -/
+theorem heap_allStrings_document_order {h : Heap} (hg : Good h) (mn : List StrClass) (L : Labels)
+    (types : TypesArg) (x : Nat) (hx : (h.kind x).isTag = true) :
+    allStringsHeap mn h L false types x =
+      .ok ((((docOrder h x).tail).filter
+        (fun e => !(h.kind e).isTag && (resolveTag mn (L.interesting x) types).keeps (L.cls e))).map h.val) := by
+  obtain ⟨w, hwf⟩ := hg
+  unfold allStringsHeap
+  simp only [hx, if_true, descendants_eq hwf x, docOrder]
+  congr 1
+  generalize (pre h.kids h.cap x).tail = ds
+  induction ds with
+  | nil => rfl
+  | cons e es ih =>
+    simp only [List.filterMap_cons, List.filter_cons, ih]
+    by_cases he : (h.kind e).isTag = true
+    · simp [shallow, he, tagKeep]
+    · cases hk : (resolveTag mn (L.interesting x) types).keeps (L.cls e) <;> simp [shallow, he, tagKeep, hk]
+
+/-- `get_text` on the heap: never fails, and is the separator-joined pieces of the tree-level evaluator. -/
+theorem heap_getText {h : Heap} (hg : Good h) (mn : List StrClass) (L : Labels) (sep : PStr) (strp : Bool)
+    (types : TypesArg) (x : Nat) :
+    getTextHeap mn h L sep strp types x =
+      .ok (List.intercalate sep (allStringsImpl mn strp types (toNode h L h.cap x))) := by
+  unfold getTextHeap
+  rw [heap_allStrings_eq_tree hg]
+  show Except.ok (joinImpl sep _) = _
+  rw [joinImpl_eq_joinSpec, joinSpec_eq_intercalate]
+
+/-- **Parse any document, edit it by any finite history of editing calls (all fourteen kinds, any arguments within
+    C01's quantifier): text extraction on the resulting pointer structure is the recursive evaluator on its
+    children lists** — for every receiver, every class labelling, every `interesting_string_types`, every argument. -/
+theorem parsed_then_edited_text :
+    ∀ (acts : List BS.ParseLink.Act) (ops : List Op) (h' : Heap),
+      run (BS.ParseLink.prun BS.ParseLink.PSt.init acts).heap ops = .ok h' → (∀ op ∈ ops, op.kindsOK) →
+      ∀ (mn : List StrClass) (L : Labels) (sep : PStr) (strp : Bool) (types : TypesArg) (x : Nat),
+        allStringsHeap mn h' L strp types x = .ok (allStringsImpl mn strp types (toNode h' L h'.cap x)) ∧
+        getTextHeap mn h' L sep strp types x =
+          .ok (List.intercalate sep (allStringsImpl mn strp types (toNode h' L h'.cap x))) := by
+  intro acts ops h' hr hk mn L sep strp types x
+  have hg : Good h' := (BS.Props.C01.parsed_then_edited_consistent acts ops h' hr hk).1
+  exact ⟨heap_allStrings_eq_tree hg mn L strp types x, heap_getText hg mn L sep strp types x⟩
+
+/-- the same from freshly constructed objects (API-built trees) -/
+theorem built_then_edited_text :
+    ∀ (kinds : List Kind) (ops : List Op) (h' : Heap),
+      run (Heap.init kinds) ops = .ok h' → (∀ op ∈ ops, op.kindsOK) →
+      ∀ (mn : List StrClass) (L : Labels) (strp : Bool) (types : TypesArg) (x : Nat),
+        allStringsHeap mn h' L strp types x = .ok (allStringsImpl mn strp types (toNode h' L h'.cap x)) := by
+  intro kinds ops h' hr hk mn L strp types x
+  have hg : Good h' := (BS.Props.C01.history_consistent ops _ h' (BS.Props.C01.init_consistent kinds) hk hr).1
+  exact heap_allStrings_eq_tree hg mn L strp types x
+
+/-- The abstraction is the tree of the children lists: a tag's tree is the tag over its children's trees, a string's
+    tree is the string; the fuel `h.cap` is enough everywhere. -/
+theorem toNode_is_the_tree {h : Heap} (hg : Good h) (L : Labels) (x : Nat) :
+    ((h.kind x).isTag = true →
+      toNode h L h.cap x = .tag (L.name x) (L.interesting x) ((h.kids x).map (toNode h L h.cap))) ∧
+    ((h.kind x).isTag = false → toNode h L h.cap x = .str (L.cls x) (h.val x)) := by
+  obtain ⟨w, hwf⟩ := hg
+  exact ⟨toNode_unfold hwf L x, toNode_str L h.cap x⟩
+
+/-- `.string` on the heap (the loop over `contents`) returns the string *object* at the end of the chain of only
+    children, and `None` when there is none; the loop bound is never reached. -/
+theorem heap_string_sole_chain {h : Heap} (hg : Good h) (x s : Nat) :
+    stringPropHeap h h.cap x = some s ↔ HeapSoleChain h x s := by
+  obtain ⟨w, hwf⟩ := hg
+  constructor
+  · exact stringPropHeap_sound h h.cap x s
+  · intro hc
+    have := hwf.size_cap x
+    exact stringPropHeap_complete hwf hc h.cap (by omega)
+
+/-- … and it is the tree-level `.string` of the abstracted tree (class and value of that object). -/
+theorem heap_string_eq_tree (h : Heap) (L : Labels) (x : Nat) :
+    stringProp (toNode h L h.cap x) = (stringPropHeap h h.cap x).map (fun s => (L.cls s, h.val s)) :=
+  stringProp_toNode h L h.cap x
+
+/-- a labelling for the examples: node 4 is a Comment, node 5 a Script string, every other string plain; tag 3
+    counts Comments only, the other tags are ordinary -/
+def demoLabels : Labels :=
+  { cls := fun i => if i = 4 then .comment else if i = 5 then .script else .navigableString,
+    interesting := fun i => if i = 3 then .many [.comment] else .many main,
+    name := fun i => [i] }
+
+/-- non-vacuity: `<t1>2<t3><!--4--></t3></t1>5` built by the API under the BeautifulSoup object 0, then edited: `5`
+    moved into `t1`, a plain string `7` inserted at the front of `t1` (the library allocates node 6 for it), `2`
+    extracted and appended to `t3` — and the text extracted through the pointers of the result -/
+def demoHeap : Except Err Heap :=
+  run (Heap.init [.soup, .tag, .str, .tag, .pre, .str])
+    [.append 0 (.node 1), .append 1 (.node 2), .append 1 (.node 3), .append 3 (.node 4), .append 0 (.node 5),
+     .append 1 (.node 5), .insert 1 0 [.plain [7]], .extract 2, .append 3 (.node 2)]
+
+example : (demoHeap.toOption.map fun h => (h.kids 0, h.kids 1, h.kids 3)) = some ([1], [6, 3, 5], [4, 2]) := by
+  decide +kernel
+example : (demoHeap.toOption.bind fun h => (allStringsHeap main h demoLabels false .dflt 0).toOption) =
+    some [[7], [2]] := by decide +kernel
+example : (demoHeap.toOption.bind fun h => (allStringsHeap main h demoLabels false .dflt 3).toOption) = some [[4]] := by
+  decide +kernel
+example : (demoHeap.toOption.bind fun h => (allStringsHeap main h demoLabels false .none 0).toOption) =
+    some [[7], [4], [2], [5]] := by decide +kernel
+example : (demoHeap.toOption.bind fun h => (getTextHeap main h demoLabels (ofS "|") false .none 1).toOption) =
+    some [7, 124, 4, 124, 2, 124, 5] := by decide +kernel
+example : (demoHeap.toOption.map fun h => stringPropHeap h h.cap 0) = some none := by decide +kernel
+example : (run (Heap.init [.soup, .tag, .tag, .str]) [.append 0 (.node 1), .append 1 (.node 2), .append 2 (.node 3)]).toOption.map
+    (fun h => stringPropHeap h h.cap 0) = some (some 3) := by decide +kernel
+example : ∀ op ∈ ([.append 1 (.node 5), .insert 1 0 [.plain [7]], .extract 2, .setString 3 .pre [9]] : List Op), op.kindsOK := by
+  intro op h
+  simp only [List.mem_cons, List.mem_nil_iff, or_false] at h
+  rcases h with rfl | rfl | rfl | rfl <;> simp [Op.kindsOK]
+/-- the demo heap is consistent (hypothesis `Good` of the heap theorems), by C01's history theorem -/
+example : ∀ h, demoHeap = .ok h → Good h := fun h hh =>
+  (BS.Props.C01.history_consistent _ _ h (BS.Props.C01.init_consistent _)
+    (by intro op hop
+        simp only [List.mem_cons, List.mem_nil_iff, or_false] at hop
+        rcases hop with rfl | rfl | rfl | rfl | rfl | rfl | rfl | rfl | rfl <;> simp [Op.kindsOK]) hh).1
+/-- a parsed start (`<a>x<b>y</b></a>z`) edited by a history: the hypothesis of `parsed_then_edited_text` is satisfiable -/
+example : (run (BS.ParseLink.prun BS.ParseLink.PSt.init [.newTag, .newStr, .newTag, .newStr, .pop, .pop, .newStr]).heap
+    [.append 1 (.node 5), .insert 1 0 [.plain [7]], .extract 2, .append 3 (.node 2)]).toOption.map
+    (fun h => (h.kids 1, h.kids 3)) = some ([6, 3, 5], [4, 2]) := by decide +kernel
+
+end heap
+
+/-! ## 10. configuration: the builder's `string_containers`, builder-less tags, `new_tag`, copies, nesting -/
+
+/-- `TreeBuilder.__init__`: an omitted `string_containers` means the class default, a dictionary — the empty one
+    included — replaces it entirely, `None` is stored as `None`. -/
+theorem config_option (dflt l : List (PStr × StrClass)) :
+    builderStringContainers dflt .useDefault = some dflt ∧ builderStringContainers dflt (.dict l) = some l ∧
+    builderStringContainers dflt .none = none := ⟨rfl, rfl, rfl⟩
+
+/-- `Tag.__init__`, every case: with a builder the `interesting_string_types` argument is ignored and the builder's
+    table decides (own class for a container name, main content classes otherwise — `new_tag` and the parser go
+    through the same call); without a builder the argument is kept as given; a builder configured with
+    `string_containers=None` makes every tag construction raise `TypeError` (recorded, not a documented value). -/
+theorem tag_init_cases (mn : List StrClass) (cont : List (PStr × StrClass)) (nm : PStr) (p : Interesting) :
+    tagInitInteresting mn (some (some cont)) nm p = .ok (interestingFor mn cont nm) ∧
+    newTagInteresting mn (some cont) nm = .ok (interestingFor mn cont nm) ∧
+    tagInitInteresting mn none nm p = .ok p ∧
+    copySelfInteresting mn nm p = .ok p ∧
+    tagInitInteresting mn (some none) nm p = .typeError ∧ newTagInteresting mn none nm = .typeError :=
+  ⟨rfl, rfl, rfl, rfl, rfl, rfl⟩
+
+/-- `string_containers={}` (and the plain `TreeBuilder`, whose default table is empty): no element is a container, not
+    even script/style/template — every element counts NavigableString and CData, and plain parsed text is a
+    NavigableString wherever it stands. -/
+theorem empty_config_all_ordinary (dflt : List (PStr × StrClass)) (nm : PStr) (p : Interesting)
+    (openNames : List PStr) (strp : Bool) (kids : List Node) :
+    tagInitInteresting main (some (builderStringContainers dflt (.dict []))) nm p = .ok (.many main) ∧
+    stringContainer [] [] (containerStackTop [] openNames) none = .navigableString ∧
+    allStringsImpl main strp .dflt (.tag nm (interestingFor main [] nm) kids) = pieces strp (textOfL isMain kids) := by
+  refine ⟨rfl, ?_, default_types_ordinary strp [] nm kids rfl⟩
+  have : containerStackTop [] openNames = none := containerStackTop_none [] openNames (fun _ _ => rfl)
+  rw [this]; rfl
+
+example : tagInitInteresting main (some (builderStringContainers containers (.dict []))) (ofS "script") .none =
+    .ok (.many [.navigableString, .cData]) := by decide
+example : tagInitInteresting main (some (builderStringContainers containers .useDefault)) (ofS "script") (.one .comment) =
+    .ok (.many [.script]) := by decide
+example : tagInitInteresting main none (ofS "script") .none = .ok .none := by decide
+example : tagInitInteresting main (some (builderStringContainers containers .none)) (ofS "p") .none = .typeError := by decide
+
+/-- A builder-less tag made without `interesting_string_types` counts the main content classes, whatever its name
+    (a bare `Tag(name="script")` is *not* a string container). -/
+theorem builderless_tag_counts_main (strp : Bool) (nm : PStr) (kids : List Node) :
+    ∃ i, tagInitInteresting main none nm .none = .ok i ∧
+      allStringsImpl main strp .dflt (.tag nm i kids) = pieces strp (textOfL isMain kids) :=
+  ⟨.none, rfl, default_types_none strp nm kids⟩
+
+/-- Copies (`copy.copy`, `copy.deepcopy`, `copy_self` on every tag, `type(s)(s)` on every string) keep every tag's
+    `interesting_string_types` and every string's class: every extraction on the copy equals the one on the original. -/
+theorem copy_same_text (mn : List StrClass) (sep : PStr) (strp : Bool) (types : TypesArg) (n : Node) :
+    copyNode mn n = n ∧
+    allStringsImpl mn strp types (copyNode mn n) = allStringsImpl mn strp types n ∧
+    getTextImpl mn sep strp types (copyNode mn n) = getTextImpl mn sep strp types n ∧
+    stringProp (copyNode mn n) = stringProp n := by
+  rw [copyNode_id]; exact ⟨rfl, rfl, rfl, rfl⟩
+
+/-- Copying a whole BeautifulSoup object is different at the root only: `BeautifulSoup.copy_self` builds a new root
+    from the same builder, so the root counts what the builder's table says for its name again, whatever had been
+    assigned to the original root by hand (recorded behaviour; every element below goes through `Tag.copy_self`). -/
+theorem soup_copy_root_from_builder (mn : List StrClass) (cont : List (PStr × StrClass)) (root : PStr) (orig : Interesting) :
+    soupCopySelfInteresting mn (some cont) root orig = .ok (interestingFor mn cont root) := rfl
+
+example : copyNode main demo = demo := (copy_same_text main [] false .dflt demo).1
+
+/-- Nested containers: plain text gets the class of the **innermost** open container element (whatever other
+    containers are open further out), and NavigableString when none is open. -/
+theorem nested_containers_innermost (cont : List (PStr × StrClass)) (pre : List PStr) (nm : PStr) (post : List PStr)
+    (c : StrClass) (hpre : ∀ g ∈ pre, cont.lookup g = none) (hnm : cont.lookup nm = some c) :
+    stringContainer [] cont (containerStackTop cont (pre ++ nm :: post)) none = c := by
+  rw [containerStackTop_split cont pre nm post c hpre hnm]
+  simp [stringContainer, hnm]
+
+theorem no_container_open (cont : List (PStr × StrClass)) (names : List PStr)
+    (h : ∀ g ∈ names, cont.lookup g = none) :
+    stringContainer [] cont (containerStackTop cont names) none = .navigableString := by
+  rw [containerStackTop_none cont names h]; rfl
+
+example : stringContainer [] containers (containerStackTop containers [ofS "b", ofS "p"]) none = .navigableString :=
+  no_container_open containers _ (by decide)
+example : stringContainer [] containers (containerStackTop containers [ofS "b", ofS "rt", ofS "p", ofS "template", ofS "div"])
+    none = .rubyTextString := by decide
+example : (∀ g ∈ [ofS "b"], containers.lookup g = none) ∧ containers.lookup (ofS "rt") = some .rubyTextString := by decide
+
+/-! ### the parser: C03's machine with this configuration
+
+`BS.Builder` (Model/Builder.lean, property C03) mirrors `pushTag`/`popTag`/`_popToTag`/`endData`/`string_container`
+for **every** event list, with string classes as numbers (`0` = NavigableString) and an abstract
+`cfg.container`. `StrClass.code` is that numbering; the theorem below instantiates C03's machine with a
+`string_containers` table and identifies the class it gives to pending text with `stringContainer` on the innermost
+open container. With C03's `endData_is_flush`/`build_refines` this holds in every state the parser can reach. -/
+section parser
+open BS.Builder
+
+/-- the configuration C03's machine sees for a `string_containers` table -/
+def builderCfg (cont : List (PStr × StrClass)) (preserve : Name → Bool) (ascii : List Nat) (root : Name) : Cfg :=
+  { preserve := preserve, container := fun n => (cont.lookup n).map StrClass.code, asciiSpaces := ascii, rootName := root }
+
+theorem classFor_eq_stringContainer (cont : List (PStr × StrClass)) (preserve : Name → Bool) (ascii : List Nat)
+    (root : Name) (stack : List Frame) :
+    classFor (builderCfg cont preserve ascii root) stack none =
+      (Text.stringContainer [] cont (containerStackTop cont (stack.map (·.name))) none).code := by
+  simp only [classFor, containerStackTop, builderCfg]
+  induction stack with
+  | nil => simp [Text.stringContainer, StrClass.code]
+  | cons f fs ih =>
+    simp only [List.map_cons, List.find?]
+    cases hl : cont.lookup f.name with
+    | none => simpa [hl] using ih
+    | some c => simp [hl, Text.stringContainer]
+
+/-- **Parsed text gets the class of the innermost open string-container element**: one flush of pending plain text, in
+    any parser state (any open elements `top :: rest`, any pending chunks), appends exactly one string whose class is
+    `stringContainer` of the innermost open container (else NavigableString). -/
+theorem parsed_text_class (cont : List (PStr × StrClass)) (preserve : Name → Bool) (ascii : List Nat) (root : Name)
+    (top : Frame) (rest : List Frame) (b : List PStr) (hb : b ≠ []) :
+    ∃ s, sFlush (builderCfg cont preserve ascii root) ⟨top :: rest, b⟩ none =
+      ⟨{ top with kids := top.kids ++
+          [Doc.text (Text.stringContainer [] cont (containerStackTop cont ((top :: rest).map (·.name))) none).code s] } :: rest, []⟩ := by
+  rw [← classFor_eq_stringContainer cont preserve ascii root (top :: rest)]
+  cases b with
+  | nil => exact absurd rfl hb
+  | cons x xs => exact ⟨_, rfl⟩
+
+/-- **Never the contents of script/style/template (rt, rp) seen from outside**, with the default tables: plain text
+    flushed while the innermost open container is one of the five default container elements becomes a string that no
+    ordinary element's extraction yields and that the container's own extraction yields — wherever in the tree it
+    later sits. -/
+theorem container_contents_invisible (preserve : Name → Bool) (ascii : List Nat) (root : Name)
+    (top : Frame) (rest : List Frame) (b : List PStr) (hb : b ≠ []) (pre : List Name) (nm : Name) (post : List Name)
+    (c : StrClass) (hsplit : (top :: rest).map (·.name) = pre ++ nm :: post)
+    (hpre : ∀ g ∈ pre, containers.lookup g = none) (hnm : containers.lookup nm = some c) :
+    ∃ s, sFlush (builderCfg containers preserve ascii root) ⟨top :: rest, b⟩ none =
+        ⟨{ top with kids := top.kids ++ [Doc.text c.code s] } :: rest, []⟩ ∧
+      textOf isMain (.str (StrClass.ofCode c.code) s) = [] ∧
+      textOf (fun d => d == c) (.str (StrClass.ofCode c.code) s) = [s] := by
+  obtain ⟨s, hs⟩ := parsed_text_class containers preserve ascii root top rest b hb
+  rw [hsplit, nested_containers_innermost containers pre nm post c hpre hnm] at hs
+  refine ⟨s, hs, ?_, ?_⟩
+  · rw [ofCode_code]
+    have hall : (containers.all fun p => !main.contains p.2) = true := containers_table.2.2.2.2.2.2.1
+    have := List.all_eq_true.mp hall (nm, c) (lookup_mem nm c containers hnm)
+    simp only [Bool.not_eq_true', main_types_table] at this
+    simp [textOf, this]
+  · rw [ofCode_code]; simp [textOf]
+
+example : (∀ g ∈ [ofS "b"], containers.lookup g = none) ∧ containers.lookup (ofS "script") = some .script ∧
+    (([⟨ofS "b", none, []⟩, ⟨ofS "script", none, []⟩, ⟨[0], none, []⟩] : List Frame).map (·.name)) =
+      [ofS "b"] ++ ofS "script" :: [[0]] := by decide
+
+end parser
+
+/-! ## 11. the arguments at full strength -/
+
+/-- `strip` is tested by `if strip:` — only its truth value matters: `0`, `None`, `""` behave as `False`; any other
+    integer and any non-empty string as `True`. -/
+theorem strip_truthiness (mn : List StrClass) (a b : PyArg) (types : TypesArg) (n : Node) (h : a.truthy = b.truthy) :
+    allStringsArg mn a types n = allStringsArg mn b types n := by
+  simp only [allStringsArg, h]
+
+theorem strip_falsy_truthy (mn : List StrClass) (types : TypesArg) (n : Node) (k : Int) (hk : k ≠ 0) (s : PStr)
+    (hs : s ≠ []) :
+    allStringsArg mn (.int 0) types n = allStringsImpl mn false types n ∧
+    allStringsArg mn .none types n = allStringsImpl mn false types n ∧
+    allStringsArg mn (.str []) types n = allStringsImpl mn false types n ∧
+    allStringsArg mn (.int k) types n = allStringsImpl mn true types n ∧
+    allStringsArg mn (.str s) types n = allStringsImpl mn true types n := by
+  refine ⟨rfl, rfl, rfl, ?_, ?_⟩
+  · have : (k != 0) = true := by simpa using hk
+    simp only [allStringsArg, PyArg.truthy, this]
+  · cases s with
+    | nil => exact absurd rfl hs
+    | cons x xs => rfl
+
+example : PyArg.truthy (.int 2) = PyArg.truthy (.str (ofS "yes")) := by decide
+
+/-- `strip()` is *the* trim: however a string is cut into whitespace, a middle without leading or trailing whitespace,
+    and whitespace, the middle is `strip` of it (with `strip_spec`: existence and uniqueness). -/
+theorem strip_unique_trim (s a m b : PStr) (hs : s = a ++ m ++ b) (ha : ∀ c ∈ a, isSpace c = true)
+    (hb : ∀ c ∈ b, isSpace c = true) (hh : ∀ c, m.head? = some c → isSpace c = false)
+    (hl : ∀ c, m.getLast? = some c → isSpace c = false) : strip s = m :=
+  strip_unique s a m b hs ha hb hh hl
+
+example : strip ([32, 0x3000] ++ ofS "a b" ++ [10]) = ofS "a b" :=
+  strip_unique_trim _ [32, 0x3000] (ofS "a b") [10] rfl (by decide) (by decide) (by decide) (by decide)
+
+/-- A string asked for its own text: by default it counts only if it is a NavigableString or CData, *whatever its
+    parent* — a Script string inside `<script>` has empty `.text` (recorded behaviour of `NavigableString._all_strings`). -/
+theorem str_receiver_default (strp : Bool) (c : StrClass) (v : PStr) :
+    allStringsImpl main strp .dflt (.str c v) =
+      if isMain c then ([if strp then strip v else v].filter (fun s => !s.isEmpty)) else [] := by
+  rw [allStrings_str_eq_spec]
+  simp only [resolveStr, textOf, Types.keeps, main_types_table]
+  by_cases h : isMain c = true
+  · simp [h]
+  · simp [h]
+
+/-- … and an explicit `types` selects a string receiver by exact class as well. -/
+theorem types_arg_str (mn : List StrClass) (strp : Bool) (cs : List StrClass) (c : StrClass) (v : PStr) :
+    allStringsImpl mn strp (.many cs) (.str c v) =
+      if cs.contains c then ([if strp then strip v else v].filter (fun s => !s.isEmpty)) else [] := by
+  rw [allStrings_str_eq_spec]
+  simp only [resolveStr, textOf, Types.keeps]
+  by_cases h : c ∈ cs
+  · simp [h]
+  · simp [h]
+
+example : allStringsImpl main false .dflt (.str .script (ofS "s")) = [] := by decide
+example : allStringsImpl main false (.many [.script]) (.str .script (ofS "s")) = [ofS "s"] := by decide
+
+/-- A one-shot iterator (generator) as `types` — not the documented tuple: `in` consumes it, so the loop yields only a
+    *sublist* of what the same classes passed as a tuple select, depending on the order of the strings. -/
+theorem iter_types_sublist (mn : List StrClass) (strp : Bool) (cs : List StrClass) (nm : PStr) (i : Interesting)
+    (kids : List Node) :
+    (allStringsIterImpl strp cs (.tag nm i kids)).Sublist (allStringsImpl mn strp (.many cs) (.tag nm i kids)) := by
+  simp only [allStringsIterImpl, allStringsImpl, resolveTag]
+  exact iterWalk_sublist strp cs (walk kids) cs (fun _ h => h)
+
+/-- the sublist can be proper: `types=iter([Comment, NavigableString])` on "a", <!--c--> finds "a" only after skipping
+    `Comment`, which is then gone -/
+example : allStringsIterImpl false [.comment, .navigableString]
+      (.tag [] .none [.str .navigableString (ofS "a"), .str .comment (ofS "c")]) = [ofS "a"] ∧
+    allStringsImpl main false (.many [.comment, .navigableString])
+      (.tag [] .none [.str .navigableString (ofS "a"), .str .comment (ofS "c")]) = [ofS "a", ofS "c"] := by
+  constructor
+  · simp [allStringsIterImpl, walk_eq_pre, preL, preN, iterWalk, iterIn, tagKeep, Types.keeps]
+  · rw [types_arg_exact]; decide
 
 end BS.Props.C13
